@@ -36,6 +36,16 @@ GLUE = [
     _g("c05_glue_any_ethernet_48", tier="thorough", unwind=5, timeout=7200, bounds="LaxSlicedPacket::from_ethernet, every byte string of length 0..=48", encodes=["LaxSlicedPacket::from_ethernet"]),
 ]
 
+def _shared():
+    # LaxPacketHeaders link-extension part (payload range, honest length source, stop errors): body in c03::glue,
+    # owned by C07's registry (stubbed network decoders, see reg/c07.py)
+    try:
+        from reg import c07
+        return [h for h in c07.HDR if h["name"].endswith("_lax")]
+    except Exception:
+        return []
+
+
 PROP = {
     "max_jobs": 8,  # parallel CBMC jobs (memory profile of these harnesses)
     "claim": "each lax entry point returns the prefix, payload range, incomplete flag, length source and stop error that "
@@ -45,5 +55,5 @@ PROP = {
              "c05_ref_lax_extends_strict. LaxPacketHeaders is tied to LaxSlicedPacket by the C04 harnesses.",
     "outside": "inputs longer than the per-harness bound; LaxPacketHeaders::from_linux_sll",
     "assumptions": ["the reference decoder kani/src/refm.rs is correct (validated natively by kani/src/bin/selfcheck.rs)"],
-    "harnesses": PER_LAYER + GLUE,
+    "harnesses": PER_LAYER + GLUE + _shared(),
 }
